@@ -1,2 +1,313 @@
-(* C11 — windows clip.  Statements only; proofs live in proofs/WindowProofs.v. *)
+(* C11 — windows clip: drawing never escapes a window or its ancestors.
+   Statements only; proofs live in proofs/WindowProofs.v, the vocabulary (WF, visible, origin,
+   in_clip, updated_at, clipped, path_ok, layout_ok, edges_ok ...) in model/Window.v.
+
+   A window is [Root f] (Parent == nil) or [Child f parent]; a frame holds Column, Row,
+   Width, Height as four arbitrary integers.  [origin w] is the sum of the offsets up to the
+   root, [in_clip w x y] says that the absolute point lies in the rectangle
+   origin + [0,Width) x [0,Height) of w and of each of its ancestors, and
+   [visible w s x y = in_clip w x y && on_screen s x y] is the clip of the property.
+   Grapheme/line segmentation and width measurement are oracles: every theorem quantifies
+   over arbitrary [measure], [remeasure], [trailing] and over arbitrary cluster lists.
+
+   Not covered here: the rendering of screenNext to the terminal (C01).  On the level of
+   glyphs (a wide cluster covers more than its cell) C11_text_no_overhang covers the text
+   helpers on windows made by Vaxis.Window/New; for Window literals that are larger than
+   their parent it is false, see C11_overhang_literal_refuted. *)
 From Vx Require Import base.Prelude base.ListX model.Window proofs.WindowProofs.
+
+(* ---------------------------------------------------------------- SetCell / SetStyle *)
+
+(* setcell_clip.  For every chain of nested windows (any depth, any integer offsets and
+   sizes), every coordinate and every well-formed screen: SetCell does not panic; if the
+   point origin+offset lies in the rectangle of the window and of every ancestor and on the
+   screen, exactly the cell at origin+offset becomes the given cell and every other cell is
+   untouched; otherwise the screen is unchanged. *)
+Theorem C11_setcell_clip : forall (w : window) (s : screen) (col row : Z) (c : cell),
+  WF s ->
+  let X := fst (origin w) + col in
+  let Y := snd (origin w) + row in
+  exists s', win_setcell w s col row c = Some s' /\
+    if visible w s X Y then updated_at s s' X Y (fun _ => c) else s' = s.
+Proof. exact setcell_clip. Qed.
+Print Assumptions C11_setcell_clip.
+
+(* the same for SetStyle: only the style of that one cell changes *)
+Theorem C11_setstyle_clip : forall (w : window) (s : screen) (col row st : Z),
+  WF s ->
+  let X := fst (origin w) + col in
+  let Y := snd (origin w) + row in
+  exists s', win_setstyle w s col row st = Some s' /\
+    if visible w s X Y then updated_at s s' X Y (fun old => mkCell (cg old) (cw old) st) else s' = s.
+Proof. exact setstyle_clip. Qed.
+Print Assumptions C11_setstyle_clip.
+
+(* Window.Origin() returns the origin used above *)
+Theorem C11_origin : forall w, win_origin w = origin w.
+Proof. exact win_origin_spec. Qed.
+Print Assumptions C11_origin.
+
+(* ---------------------------------------------------------------- draw_clip *)
+
+(* Every drawing call (SetCell, SetStyle, Fill, Clear, Print, PrintTruncate, Println, Wrap),
+   on any window chain, with any arguments, any text and any oracle answers: returns (no
+   panic), leaves a well-formed screen of the same size, and changes no cell outside the
+   intersection of the window, all its ancestors and the screen. *)
+Theorem C11_draw_clip :
+  forall (measure : text -> Z) (remeasure : bool) (trailing : text -> bool)
+         (w : window) (s : screen) (o : op),
+  WF s ->
+  exists s' ret, run_op_with measure remeasure trailing w s o = Some (s', ret) /\
+    WF s' /\ same_dims s s' /\
+    forall X Y, visible w s X Y = false -> sget s' X Y = sget s X Y.
+Proof. exact run_op_clipped. Qed.
+Print Assumptions C11_draw_clip.
+
+(* a sequence of SetCell calls leaves, inside the clip, the last cell put at each point and
+   nothing else (the semantics all text helpers are reduced to below) *)
+Theorem C11_placements_exact : forall (w : window) (ps : list placement) (s : screen),
+  WF s ->
+  exists s', draw_places w s ps = Some s' /\ WF s' /\ same_dims s s' /\
+    forall X Y, sget s' X Y =
+      if visible w s X Y
+      then match last_at ps (X - fst (origin w)) (Y - snd (origin w)) with
+           | Some c => Some c
+           | None => sget s X Y
+           end
+      else sget s X Y.
+Proof. exact draw_exact. Qed.
+Print Assumptions C11_placements_exact.
+
+(* Fill (and Clear = Fill with a blank): afterwards exactly the clip carries the cell *)
+Theorem C11_fill_exact : forall (w : window) (s : screen) (c : cell),
+  WF s ->
+  exists s', win_fill w s c = Some s' /\ WF s' /\ same_dims s s' /\
+    forall X Y, sget s' X Y = if visible w s X Y then Some c else sget s X Y.
+Proof. exact fill_exact. Qed.
+Print Assumptions C11_fill_exact.
+
+(* ---------------------------------------------------------------- print_layout *)
+
+(* Print is: compute the layout [print_places] (pure), then SetCell each placement *)
+Theorem C11_print_is_layout :
+  forall measure remeasure (w : window) (s : screen) (segs : list segment),
+  let r := print_places measure remeasure (fw (wframe w)) (fh (wframe w)) (items_of segs) 0 0 in
+  win_print measure remeasure w s segs =
+  match draw_places w s (fst r) with None => None | Some s' => Some (s', snd r) end.
+Proof. intros; unfold win_print, win_size; apply print_loop_places. Qed.
+Print Assumptions C11_print_is_layout.
+
+(* The layout of Print, for any window size (also zero or negative), any text and widths >= 0:
+   - every cluster is placed with its whole glyph between column 0 and the window's width,
+     never above row 0;
+   - placements walk in reading order from (0,0) to the returned position: a cluster goes to
+     the current position or to column 0 of a later row, the next position is right after
+     it (advance by its width);
+   - if the text has no line break, a later row is the next row and is started only when the
+     row is full or the next cluster does not fit in the rest of it;
+   - the cells are the clusters (whole grapheme, its width, the segment's style) that are no
+     line break and are not wider than the window, in order, each exactly once: all of
+     them unless the text ran below the window, otherwise a prefix. *)
+Theorem C11_print_layout :
+  forall measure remeasure (cols rows : Z) (items : list (character * Z)),
+  (forall it, In it items -> 0 <= item_width measure remeasure it) ->
+  let r := print_places measure remeasure cols rows items 0 0 in
+  let ps := fst r in
+  let all := map (item_cell measure remeasure) (filter (printable measure remeasure cols) items) in
+  (forall p, In p ps -> 0 <= fst (fst p) /\ fst (fst p) + cw (snd p) <= cols /\ 0 <= snd (fst p)) /\
+  path_ok (0, 0) ps (snd r) /\ layout_ok (no_newline items) cols ps /\
+  (exists n, map snd ps = firstn n all) /\ (snd (snd r) <= rows -> map snd ps = all).
+Proof. exact print_layout. Qed.
+Print Assumptions C11_print_layout.
+
+(* Println and PrintTruncate draw [println_places] / [ptrunc_places] *)
+Theorem C11_println_is_layout :
+  forall measure remeasure (w : window) (s : screen) (row : Z) (segs : list segment),
+  win_println measure remeasure w s row segs =
+  if row >=? fh (wframe w) then Some s
+  else draw_places w s (println_places measure remeasure (fw (wframe w)) (items_of segs) 0 row).
+Proof. intros; unfold win_println, win_size. destruct (row >=? fh (wframe w)); [reflexivity|apply println_loop_places]. Qed.
+Print Assumptions C11_println_is_layout.
+
+Theorem C11_print_truncate_is_layout :
+  forall measure remeasure (w : window) (s : screen) (row : Z) (segs : list segment),
+  win_print_truncate measure remeasure w s row segs =
+  if row >=? fh (wframe w) then Some s
+  else draw_places w s (ptrunc_places measure remeasure (fw (wframe w)) (items_of segs) 0 row).
+Proof. intros; unfold win_print_truncate, win_size. destruct (row >=? fh (wframe w)); [reflexivity|apply ptrunc_loop_places]. Qed.
+Print Assumptions C11_print_truncate_is_layout.
+
+(* one row, left to right, each cluster right after the previous one; Println places the
+   clusters of a prefix of the text, whole, and every glyph ends inside the window *)
+Theorem C11_println_layout :
+  forall measure remeasure (cols : Z) (items : list (character * Z)) (row : Z),
+  let ps := println_places measure remeasure cols items 0 row in
+  (forall p, In p ps -> snd (fst p) = row /\ fits_in cols p) /\
+  (exists en, path_ok (0, row) ps en) /\
+  (exists n, map snd ps = map (item_cell measure remeasure) (firstn n items)).
+Proof.
+  intros measure remeasure cols items row ps.
+  destruct (println_layout measure remeasure cols items 0 row) as (H1 & H2 & H3).
+  split; [|split; assumption].
+  intros p Hp; split; [apply H1; exact Hp|eapply println_places_fits; exact Hp].
+Qed.
+Print Assumptions C11_println_layout.
+
+(* PrintTruncate: a prefix of the clusters, then the ellipsis (one column) iff a cluster was cut *)
+Theorem C11_print_truncate_layout :
+  forall measure remeasure (cols : Z) (items : list (character * Z)) (row : Z),
+  let ps := ptrunc_places measure remeasure cols items 0 row in
+  (forall p, In p ps -> snd (fst p) = row /\ fits_in cols p) /\
+  (exists en, path_ok (0, row) ps en) /\
+  (exists n, map (fun p => cg (snd p)) ps = map (fun it => gr (fst it)) (firstn n items)
+             \/ (n < length items)%nat /\
+                map (fun p => cg (snd p)) ps = map (fun it => gr (fst it)) (firstn n items) ++ [ellipsis]).
+Proof.
+  intros measure remeasure cols items row ps.
+  destruct (ptrunc_layout measure remeasure cols items 0 row) as (H1 & H2 & H3).
+  split; [|split; assumption].
+  intros p Hp; split; [apply H1; exact Hp|eapply ptrunc_places_fits; exact Hp].
+Qed.
+Print Assumptions C11_print_truncate_layout.
+
+(* Wrap draws [wrap_places]; its placements walk in reading order from (0,0) to the returned
+   position and no glyph overhangs the window's right edge *)
+Theorem C11_wrap_layout :
+  forall measure remeasure trailing (w : window) (s : screen) (lsegs : list lineseg),
+  let r := wrap_places measure remeasure trailing (fw (wframe w)) (fh (wframe w)) lsegs 0 0 in
+  win_wrap measure remeasure trailing w s lsegs =
+    match draw_places w s (fst r) with None => None | Some s' => Some (s', snd r) end /\
+  path_ok (0, 0) (fst r) (snd r) /\
+  (forall p, In p (fst r) -> fits_in (fw (wframe w)) p).
+Proof.
+  intros measure remeasure trailing w s lsegs r. split; [|split].
+  - unfold win_wrap, win_size; apply wrap_loop_places.
+  - apply wrap_places_path.
+  - intros p Hp; eapply wrap_places_fits; exact Hp.
+Qed.
+Print Assumptions C11_wrap_layout.
+
+(* Characters never splits or merges clusters: every character is a whole cluster with the
+   width the segmenter reported, or one of the spaces that replace a tab *)
+Theorem C11_characters_whole : forall (cls : list (text * Z)) (ch : character),
+  In ch (characters cls) ->
+  (In (gr ch, wd ch) cls /\ gr ch <> [9]) \/ (ch = mkChar [32] 1 /\ exists w, In ([9], w) cls).
+Proof. exact characters_whole. Qed.
+Print Assumptions C11_characters_whole.
+
+(* ---------------------------------------------------------------- constructor_clamps *)
+
+(* New, for every parent and all four integer arguments: the child's right and bottom edge
+   never exceed the parent's size; a size that is non-negative and fits is kept, otherwise
+   it becomes what is left of the parent; with a non-negative offset the child's rectangle
+   lies inside the parent's. *)
+Theorem C11_constructor_clamps : forall (w : window) (col row cols rows : Z),
+  let f := wframe (win_new w col row cols rows) in
+  let p := wframe w in
+  win_new w col row cols rows = Child f w /\
+  fcol f = col /\ frow f = row /\
+  col + fw f <= fw p /\ row + fh f <= fh p /\
+  (0 <= cols -> cols + col <= fw p -> fw f = cols) /\
+  (0 <= rows -> rows + row <= fh p -> fh f = rows) /\
+  (fw f = cols \/ fw f = fw p - col) /\ (fh f = rows \/ fh f = fh p - row) /\
+  (0 <= col -> 0 <= row -> forall x y, in_rect (win_new w col row cols rows) x y = true -> in_rect w x y = true).
+Proof.
+  intros w col row cols rows. cbn zeta. unfold win_new, win_size; cbn [wframe fcol frow fw fh].
+  split; [reflexivity|]. split; [reflexivity|]. split; [reflexivity|].
+  split; [apply clamp_size_edge|]. split; [apply clamp_size_edge|].
+  split; [apply clamp_size_keeps|]. split; [apply clamp_size_keeps|].
+  split; [apply clamp_size_cases|]. split; [apply clamp_size_cases|].
+  intros Hc Hr x y. apply (win_new_inside_parent w col row cols rows x y Hc Hr).
+Qed.
+Print Assumptions C11_constructor_clamps.
+
+(* hence every window made from Vaxis.Window() by any number of New calls has all edges
+   within its parent and within the screen *)
+Theorem C11_constructed_edges : forall (s : screen) (steps : list (Z * Z * Z * Z)),
+  edges_ok (build_window s (None, map (fun a => (true, a)) steps)) (scols s) (srows s) = true.
+Proof.
+  intros s steps. apply build_window_edges. unfold built_by_constructors; cbn [fst snd].
+  induction steps; cbn [map forallb fst]; auto.
+Qed.
+Print Assumptions C11_constructed_edges.
+
+(* ---------------------------------------------------------------- glyphs *)
+
+(* On such windows the text helpers never let a glyph spill: whenever Print, PrintTruncate,
+   Println or Wrap changed a cell, all columns covered by the new cell's glyph (max 1 width)
+   lie in the window, in every ancestor and on the screen.  (Before the fix to Print/Wrap in
+   /repo a wide cluster was placed in the last column.) *)
+Theorem C11_text_no_overhang :
+  forall measure remeasure trailing (w : window) (s : screen) (o : op) s' ret X Y c,
+  WF s -> edges_ok w (scols s) (srows s) = true -> is_text_op o = true ->
+  run_op_with measure remeasure trailing w s o = Some (s', ret) ->
+  sget s' X Y = Some c -> sget s X Y <> Some c ->
+  forall i, 0 <= i < glyph_w c -> visible w s (X + i) Y = true.
+Proof. exact text_no_overhang. Qed.
+Print Assumptions C11_text_no_overhang.
+
+(* The hypothesis on the edges is needed: a Window literal that is wider than its parent
+   (the constructors never produce one) lets Print put a wide cluster where its parent ends.
+   Screen 5x2, root 5x2, New(0,0,3,2), then the literal Window{Width: 4, Height: 2, Parent: ...}:
+   Print "ab" + a width-2 cluster puts that cluster at column 2, its right half is column 3,
+   outside the 3-column parent. *)
+Theorem C11_overhang_literal_refuted :
+  exists (w : window) (s : screen) (o : op) s' ret X Y c i,
+    WF s /\ is_text_op o = true /\
+    run_op_with (fun _ => 0) false (fun _ => false) w s o = Some (s', ret) /\
+    sget s' X Y = Some c /\ sget s X Y <> Some c /\ 0 <= i < glyph_w c /\
+    visible w s (X + i) Y = false.
+Proof.
+  pose (s := bg_screen (mkCell [46] 1 99) 5 2).
+  pose (w := Child (mkFrame 0 0 4 2) (win_new (root_window s) 0 0 3 2)).
+  pose (o := OPrint [([([97], 1); ([98], 1); ([20013], 2)], 1)]).
+  exists w, s, o. eexists. eexists. exists 2, 0, (mkCell [20013] 2 1), 1.
+  split; [apply bg_screen_WF; lia|]. split; [reflexivity|].
+  split; [vm_compute; reflexivity|].
+  split; [reflexivity|]. split; [vm_compute; discriminate|]. split; [vm_compute; split; [discriminate|reflexivity]|].
+  reflexivity.
+Qed.
+Print Assumptions C11_overhang_literal_refuted.
+
+(* ---------------------------------------------------------------- non-vacuity *)
+
+(* a well-formed screen exists; resize produces one *)
+Example C11_example_wf : WF (bg_screen zero_cell 5 4) /\
+  exists s, screen_resize 5 4 = Some s /\ WF s.
+Proof.
+  split; [apply bg_screen_WF; lia|]. destruct (screen_resize 5 4) as [s|] eqn:E; [|discriminate].
+  exists s; split; [reflexivity|]. apply (screen_resize_WF 5 4 s E).
+Qed.
+
+(* a chain with a negative offset and an oversized literal: one SetCell inside the clip
+   (lands at origin + offset = (1,1)), one inside the window but outside its parent *)
+Example C11_example_setcell :
+  let s := bg_screen zero_cell 5 4 in
+  let w := Child (mkFrame (-1) 0 9 9) (win_new (root_window s) 1 1 2 2) in
+  origin w = (0, 1) /\
+  visible w s 1 1 = true /\
+  (exists s', win_setcell w s 1 0 (mkCell [120] 1 3) = Some s' /\ sget s' 1 1 = Some (mkCell [120] 1 3)) /\
+  visible w s 3 1 = false /\
+  win_setcell w s 3 0 (mkCell [120] 1 3) = Some s.
+Proof. vm_compute. repeat split; eauto. Qed.
+
+(* the layout of "ab" + wide + "d" in a window of 3 columns: the wide cluster starts row 1 *)
+Example C11_example_print :
+  fst (print_places (fun _ => 0) false 3 2
+         (items_of [([([97], 1); ([98], 1); ([20013], 2); ([100], 1)], 7)]) 0 0) =
+  [(0, 0, mkCell [97] 1 7); (1, 0, mkCell [98] 1 7); (0, 1, mkCell [20013] 2 7); (2, 1, mkCell [100] 1 7)].
+Proof. reflexivity. Qed.
+
+(* the hypotheses of C11_text_no_overhang are met by a constructed window on which Print
+   really changes cells *)
+Example C11_example_no_overhang :
+  let s := bg_screen zero_cell 5 4 in
+  let w := win_new (win_new (root_window s) 1 0 3 9) (-1) 1 9 (-1) in
+  WF s /\ edges_ok w (scols s) (srows s) = true /\
+  exists s' ret, run_op_with (fun _ => 0) false (fun _ => false) w s
+                   (OPrint [([([97], 1); ([20013], 2); ([98], 1)], 1)]) = Some (s', ret) /\
+                 sget s' 1 1 = Some (mkCell [20013] 2 1) /\ sget s' 3 1 = Some (mkCell [98] 1 1).
+Proof.
+  cbn zeta. split; [apply bg_screen_WF; lia|]. split; [reflexivity|].
+  vm_compute. eexists; eexists; split; [reflexivity|split; reflexivity].
+Qed.
